@@ -1,5 +1,6 @@
 import Req.Driver.Proto
 import Req.C02.RespSM
+import Req.C02.Call
 import Req.C02.H1Body
 import Req.C02.H1Msg
 import Req.C02.H3Recv
@@ -9,7 +10,7 @@ namespace Req.Driver.L.C02
 open Req.Proto Req.C02
 
 def rerrStr : RErr → String
-  | .ok => "ok" | .eof => "eof" | .fail => "fail" | .closed => "closed"
+  | .ok => "ok" | .eof => "eof" | .fail => "fail" | .closed => "closed" | .transport => "transport"
 
 def parseFin : String → Option Fin
   | "eof" => some .eof
@@ -21,12 +22,16 @@ def parseBool01 : Char → Option Bool
   | '1' => some true
   | _ => none
 
-/-- `c<0|1>r<0|1>s<0|1>j<0|1>` -/
+/-- `c<0|1>r<0|1>s<0|1>j<0|1>[e<0|1>]` -/
 def parseCfg (s : String) : Option Cfg :=
   match s.toList with
   | ['c', a, 'r', b, 's', c, 'j', d] => do
     let a ← parseBool01 a; let b ← parseBool01 b; let c ← parseBool01 c; let d ← parseBool01 d
     pure { clientDisable := a, reqDisable := b, save := c, result := d }
+  | ['c', a, 'r', b, 's', c, 'j', d, 'e', e] => do
+    let a ← parseBool01 a; let b ← parseBool01 b; let c ← parseBool01 c; let d ← parseBool01 d
+    let e ← parseBool01 e
+    pure { clientDisable := a, reqDisable := b, save := c, result := d, errResult := e }
   | _ => none
 
 def parseOp (s : String) : Option Op :=
@@ -239,7 +244,53 @@ def laneH2Recv : List String → String
     | _, _, _ => "bad-op"
   | _ => "bad-op"
 
+/-! ### multi-exchange calls -/
+
+/-- exchange: `T` | `R;<tag>;<status>;<redirect 0|1>;<fin>;<chunks>` -/
+def decodeExch (s : String) : Option Exch :=
+  match s.splitOn ";" with
+  | ["T"] => some .terr
+  | ["R", tag, st, rd, fin, cks] => do
+    let tag ← tag.toNat?
+    let st ← st.toNat?
+    let rd ← (match rd.toList with | [c] => parseBool01 c | _ => none)
+    let fin ← parseFin fin
+    let cks ← decodeList cks
+    pure (.resp tag st rd cks fin)
+  | _ => none
+
+def decodeScript (s : String) : Option (List Exch) :=
+  if s == "none" then some [] else (s.splitOn "/").mapM decodeExch
+
+def parseDigestAt : String → Option DigestAt
+  | "o" => some .off | "c" => some .client | "r" => some .request | _ => none
+
+def parseRetryCond : String → Option RetryCond
+  | "d" => some .dflt | "s" => some .status | "e" => some .either | _ => none
+
+/-- `c02call <cfg> <file 0|1> <digest o|c|r> <retries> <cond d|s|e> <script> <ops>` →
+`err=<e> resp=<0|1> st=<status> ex=<tag> res=<hex|nil> eres=<hex|nil> out=<hex|nil> left=<n> obs=<o;o;…>` -/
+def laneCall : List String → String
+  | [cfg, file, dg, n, cond, script, ops] =>
+    match parseCfg cfg, (match file.toList with | [c] => parseBool01 c | _ => none), parseDigestAt dg,
+          n.toNat?, parseRetryCond cond, decodeScript script, parseOps ops with
+    | some base, some file, some dg, some n, some cond, some script, some ops =>
+      let ccfg : CCfg := { base := base, file := file, digest := dg, maxRetries := n, cond := cond }
+      let (c, out, rest) := call ccfg script
+      let c := c.v
+      let e0 := match c.r.err with | none => "ok" | some e => rerrStr e
+      let (obs, _) := c.r.run ops
+      "err=" ++ e0 ++ " resp=" ++ (if c.hasResp then "1" else "0") ++ " st=" ++ toString c.r.status ++
+        " ex=" ++ toString c.tag ++ " res=" ++ optStr c.result ++ " eres=" ++ optStr c.error ++
+        -- a writer that was never written to and one that received zero bytes look the same
+        " out=" ++ (if base.save && !file then encodeHex (match out with | some b => b | none => []) else optStr out) ++
+        " left=" ++ toString rest.length ++ " obs=" ++
+        (if obs.isEmpty then "-" else ";".intercalate (obs.map fun x => obsStr x.2))
+    | _, _, _, _, _, _, _ => "bad-op"
+  | _ => "bad-op"
+
 def lanes : List (String × (List String → String)) := [
+  ("c02call", laneCall),
   ("c02ops", laneOps),
   ("c02h2recv", laneH2Recv),
   ("c02h3recv", laneH3Recv),
